@@ -227,7 +227,10 @@ def enum_long(tier, shard, nshards):
         if i % nshards != shard:
             continue
         period = [200, 173][i % 2]
-        off = [0, 37][i % 2]
+        # the samples on either side of the last power-of-two boundary inside the array lie in the middle of a decaying flank
+        # (where the two interpolation branches differ), for the later sizes in the middle of a rising flank
+        seam = 2 ** (n.bit_length() - 1)
+        off = (seam - 1 - (3 * period // 8 if i < 2 else 7 * period // 8)) % period
         peaks = list(range(off, n, period))
         troughs = [p + period // 2 for p in peaks if p + period // 2 < n]
         mode = i % 3
